@@ -1745,9 +1745,11 @@ private theorem runSub_ok (inp : Input) (ch : Choices) (mk : Nat → Block) (s :
     (hwids : ∀ r ∈ inp.reports, r.Nodup)
     (horders : ∀ ord, ch.orders.getD s none = some ord → ord.Perm (runWindow inp s))
     (hrecvs : ∀ ord, ch.recvs.getD s none = some ord → ord.Perm (runWindow inp s))
+    (hslows : ∀ ord, ch.slows.getD s none = some ord → ord.Perm (runWindow inp s))
     (hmid : inp.queries = [] ∨ ch.recvs.getD s none = none) :
     let chain := (List.range inp.count).map mk
     recvOk (winChain inp chain s) (runSub inp ch chain s).recv = true ∧
+    recvOk (winChain inp chain s) (runSub inp ch chain s).slow = true ∧
     histsOk (paramsOf inp) (winChain inp chain s) (runSub inp ch chain s).hists = true ∧
     subEventsOk (paramsOf inp) chain (runSub inp ch chain s) = true := by
   intro chain
@@ -1771,7 +1773,15 @@ private theorem runSub_ok (inp : Input) (ch : Choices) (mk : Nat → Block) (s :
       exact this
     · exact harr
   have hwin_sub : ∀ b ∈ winChain inp chain s, b ∈ chain := fun b hb => hsl.subset hb
-  refine ⟨model_recv_ok_pw _ _ hpw' hrecv, ?_, ?_⟩
+  have hslow : (runSub inp ch chain s).slow.Perm (winChain inp chain s) := by
+    simp only [runSub]
+    split
+    · rename_i ord h
+      have := (hslows ord h).filterMap (chain[·]?)
+      rw [(window_blocks inp mk s).1] at this
+      exact this
+    · exact harr
+  refine ⟨model_recv_ok_pw _ _ hpw' hrecv, model_recv_ok_pw _ _ hpw' hslow, ?_, ?_⟩
   · exact model_histories_ok_pw (paramsOf inp) _ _ rfl hpw' (fun b hb => hltc b (hwin_sub b hb)) harr
   · -- events
     have hanswer : ∀ (arr : List Block) (k : Nat),
@@ -1879,6 +1889,7 @@ theorem run_satisfies_spec (inp : Input) (ch : Choices)
     (hwids : ∀ r ∈ inp.reports, r.Nodup)
     (horders : ∀ s ord, ch.orders.getD s none = some ord → ord.Perm (runWindow inp s))
     (hrecvs : ∀ s ord, ch.recvs.getD s none = some ord → ord.Perm (runWindow inp s))
+    (hslows : ∀ s ord, ch.slows.getD s none = some ord → ord.Perm (runWindow inp s))
     (hmid : inp.queries = [] ∨ ∀ s, ch.recvs.getD s none = none) :
     spec (paramsOf inp) (run inp ch) = true := by
   -- the loader's timeline
@@ -1955,15 +1966,16 @@ theorem run_satisfies_spec (inp : Input) (ch : Choices)
     rw [List.map_id] at h
     exact h
   have hsub : ∀ s, recvOk (winChain inp chain s) (runSub inp ch chain s).recv = true ∧
+      recvOk (winChain inp chain s) (runSub inp ch chain s).slow = true ∧
       histsOk (paramsOf inp) (winChain inp chain s) (runSub inp ch chain s).hists = true ∧
       subEventsOk (paramsOf inp) chain (runSub inp ch chain s) = true := by
     intro s
     subst hmk
-    exact runSub_ok inp ch mk s (fun _ => rfl) htx hbound hwids (horders s) (hrecvs s)
+    exact runSub_ok inp ch mk s (fun _ => rfl) htx hbound hwids (horders s) (hrecvs s) (hslows s)
       (hmid.imp id (fun h => h s))
   unfold spec
   simp only [hzs, Bool.and_eq_true, List.all_eq_true, List.mem_map, List.mem_range]
-  refine ⟨⟨⟨⟨?_, ?_⟩, ?_⟩, ?_⟩, ?_⟩
+  refine ⟨⟨⟨⟨⟨?_, ?_⟩, ?_⟩, ?_⟩, ?_⟩, ?_⟩
   · -- chain
     have hl : chain.length = inp.count := by rw [hmk]; simp
     simp [chainOk, paramsOf, hnum, hl]
@@ -1971,6 +1983,8 @@ theorem run_satisfies_spec (inp : Input) (ch : Choices)
     exact (hsub s).1
   · rintro _ ⟨s, _, rfl⟩
     exact (hsub s).2.1
+  · rintro _ ⟨s, _, rfl⟩
+    exact (hsub s).2.2.1
   · -- transmits
     have hres_mem : ∀ r, r ∈ runResults chain tl ↔
         ∃ t ∈ tl.transmitted, r = { t := t, block := (chain.find? fun b => b.txs.contains t).map (·.number) } := by
@@ -2067,7 +2081,7 @@ theorem run_satisfies_spec (inp : Input) (ch : Choices)
         have := (mem_onChain chain _ t).mpr ⟨b', hb', rfl, ht'⟩
         simpa using this
   · rintro _ ⟨s, _, rfl⟩
-    exact (hsub s).2.2
+    exact (hsub s).2.2.2
 
 /-- the hypotheses of `run_satisfies_spec` are met by the late-block witness: blocks 97 … 104 every
     100 ms, two nodes submit the same report concurrently at 150.137 ms, subscriber 0 gets block 98
@@ -2076,7 +2090,7 @@ theorem run_satisfies_spec (inp : Input) (ch : Choices)
 example :
     let inp : Input := ⟨97, 8, 100, 3, [[0, 2000, 0, 0, 0, 0, 0, 0], [], []], [["w"]], [(150137, ⟨0, 1, [0, 1]⟩)], [500137],
       [0, 0, 250137], [0, 350137, 0]⟩
-    let ch : Choices := ⟨[], [[false, true]], [], []⟩
+    let ch : Choices := ⟨[], [[false, true]], [], [], []⟩
     spec (paramsOf inp) (run inp ch) = true ∧
     (run inp ch).accepted = [[false, true]] ∧
     (run inp ch).subs.map (·.recv.map (·.number)) =
@@ -2084,8 +2098,95 @@ example :
     (run inp ch).subs.map (·.events) =
       [[[⟨"w", 99, 3, 0, 1⟩], [⟨"w", 99, 5, 0, 1⟩]], [[⟨"w", 99, 1, 0, 1⟩], [⟨"w", 99, 1, 0, 1⟩]], [[], []]] := by
   intro inp ch
-  refine ⟨run_satisfies_spec inp ch (by decide) (by decide) ?_ ?_ (Or.inr (by intro s; simp [ch])), by decide, by decide, by decide⟩
+  refine ⟨run_satisfies_spec inp ch (by decide) (by decide) ?_ ?_ ?_ (Or.inr (by intro s; simp [ch])), by decide, by decide, by decide⟩
   · intro s ord h; simp [ch] at h
   · intro s ord h; simp [ch] at h
+  · intro s ord h; simp [ch] at h
+
+/-! ### tie to the source: the model's decisions are the expressions regenerated from the Go code
+
+`Gen.Src.c19…` are translated from tools/simulator on every check run (extract/exprs.d/C19.json).  A changed
+operator or operand there changes these definitions and the theorems below stop checking.
+(`createPluginTransmitEvents`' `new(big.Int).Sub(latest.Number, chainEvent.BlockNumber).Int64()` is a
+method-call chain the translator cannot express; its exact text is pinned by the site expectation in
+extract/expect.json instead.) -/
+
+/-- the `less` closure of `SortedKeyMap.Set`: `if len(a) != len(b) { return len(a) < len(b) }; return a < b` -/
+theorem numLt_matches_source (a b : String) :
+    numLt a b = if Gen.Src.c19KeyLenDiffer a.length b.length then Gen.Src.c19KeyShorter a.length b.length
+                else Gen.Src.c19KeyLexLess a b := by
+  unfold numLt Gen.Src.c19KeyLenDiffer Gen.Src.c19KeyShorter Gen.Src.c19KeyLexLess
+  split <;> simp_all
+
+/-- `Set`: the key is appended and the slice re-sorted exactly under `!ok` -/
+theorem set_matches_source {α} (lt : String → String → Bool) (m : SKM α) (k : String) (v : α) :
+    m.set lt k v =
+      if Gen.Src.c19SetNewKey (m.get k).isSome then { keys := insertSorted lt k m.keys, vals := (k, v) :: m.vals }
+      else { m with vals := (k, v) :: m.vals } := by
+  unfold SKM.set Gen.Src.c19SetNewKey
+  split <;> simp_all
+
+/-- `Keys`: `if count > keysLen { count = keysLen }`, then `for i := 1; i <= count; i++ { keys[i-1] = m.keys[keysLen-i] }` -/
+theorem keysDesc_matches_source {α} (m : SKM α) (count : Nat) :
+    m.keysDesc count =
+      ((List.range (if Gen.Src.c19KeysClamp count m.keys.length then m.keys.length else count)).map
+        fun j => m.keys.getD (m.keys.length - (j + 1)) "") ∧
+    ∀ n i, (1 ≤ i ∧ Gen.Src.c19KeysLoop i n = true) ↔ (1 ≤ i ∧ i - 1 ∈ List.range n) := by
+  refine ⟨?_, ?_⟩
+  · unfold SKM.keysDesc Gen.Src.c19KeysClamp
+    simp only [decide_eq_true_eq]
+  · intro n i
+    simp only [Gen.Src.c19KeysLoop, decide_eq_true_eq, List.mem_range]
+    omega
+
+/-- `Transmit`: refused exactly when the `(report, round)` key is in the index (`if _, ok := tl.transmitted[key]; ok`) -/
+theorem transmit_matches_source (tl : TL) (t : Transmit) :
+    tl.transmit t =
+      if Gen.Src.c19TransmitDuplicate (tl.transmitted.any (sameKey t)) then (tl, false)
+      else ({ queue := tl.queue ++ [t], transmitted := tl.transmitted ++ [t] }, true) := rfl
+
+/-- `Load`: a block gets no perform transaction exactly when `len(tl.queue) == 0` -/
+theorem load_matches_source (tl : TL) : (tl.load).2.isEmpty = Gen.Src.c19LoadNothing tl.queue.length := by
+  cases h : tl.queue <;> simp [TL.load, Gen.Src.c19LoadNothing, h]
+
+/-- `updateBlock`: `rt.latest == nil || rt.latest.Number == nil || (block.Number != nil && block.Number.Cmp(rt.latest.Number) > 0)`
+    (block numbers are never nil in the model) -/
+theorem onBlock_matches_source (rt : RT) (b : Block) :
+    rt.onBlock b =
+      if Gen.Src.c19LatestMoves rt.latest.isNone false true
+          (match rt.latest with | some l => bigCmp b.number l.number | none => 0)
+      then { rt with latest := some b } else rt := by
+  unfold RT.onBlock Gen.Src.c19LatestMoves bigCmp
+  cases h : rt.latest with
+  | none => simp
+  | some l =>
+    simp only [Option.isNone_some, Bool.false_or, Bool.true_and, decide_eq_true_eq]
+    by_cases h1 : b.number > l.number
+    · have h2 : ¬ b.number < l.number := by omega
+      have h3 : ¬ b.number = l.number := by omega
+      simp [h1, h2, h3]
+    · by_cases h2 : b.number < l.number
+      · simp [h1, h2]
+      · have h3 : b.number = l.number := by omega
+        simp [h3]
+
+/-- `run`: block `n` is broadcast unless `bb.nextBlock.Cmp(bb.limit) > 0`, with `limit = genesis + count - 1` -/
+theorem chainNumbers_matches_source (g count n : Nat) (hc : 0 < count) :
+    n ∈ chainNumbers g count ↔ (g ≤ n ∧ Gen.Src.c19PastLimit (bigCmp n (g + (count - 1))) = false) := by
+  simp only [chainNumbers, List.mem_map, List.mem_range, Gen.Src.c19PastLimit, bigCmp, decide_eq_false_iff_not]
+  constructor
+  · rintro ⟨i, hi, rfl⟩
+    refine ⟨by omega, ?_⟩
+    by_cases h1 : g + i < g + (count - 1)
+    · simp [h1]
+    · have : g + i = g + (count - 1) := by omega
+      simp [this]
+  · rintro ⟨h1, h2⟩
+    refine ⟨n - g, ?_, by omega⟩
+    by_cases h3 : n < g + (count - 1)
+    · omega
+    · by_cases h4 : n = g + (count - 1)
+      · omega
+      · simp [h3, h4] at h2
 
 end AutoVerif.C19
